@@ -2,6 +2,7 @@
 from __future__ import annotations
 
 import json
+import random
 from pathlib import Path
 
 import authoring as A
@@ -31,8 +32,24 @@ def run(ck: vlib.Check):
     drv_ok = RC.build_rich(ck, ["proofs/C07_proofs.vo"], "props/C07.v")
     rng = ck.rng
     bs = R.bases(rng, 4 if ck.tier == "quick" else 40, ck.tier)
-    unedited = {label: RC.impl_load_save(b) for label, b in bs}
     cases = []
+    # pressure: tables that are full or nearly full and hold slots with identical contents (the shape of
+    # editor-prefilled maps such as the demon_lore fixture), to which one new object of each kind is added
+    import c11
+    press = [(nme.split("/")[-1], b) for nme, b in SC.fixtures() if "demon" in nme][:1]
+    for k in range(2 if ck.tier == "quick" else 12):
+        press.append((f"prefilled:{k}", SC.MapGen(random.Random(rng.randrange(10 ** 9)), "editor", nloc=255, all_sections=True,
+                                                 uprp_prefilled=(k % 2 == 0), cuwp_twins=True, ntrig=2).build()))
+    for label, base in press:
+        one_loc = [[1, 1, 2, 2, None, None, [True] * 6]]
+        new_cuwp = [[77, 66, 55, 4242, 3, [False] * 5, [True] * 5 + [False], [True] * 6 + [False], False, 0, None]]
+        for nm, spec in (("new-cuwp", {"pool": {"locs": one_loc, "switches": [], "cuwps": new_cuwp}, "ops": [c11._trigs(c11._cuwp_acts([0]))]}),
+                         ("new-loc", {"pool": {"locs": [[5, 6, 7, 8, "pressure loc", None, [True] * 6]], "switches": [], "cuwps": []},
+                                      "ops": [c11._trigs(c11._loc_acts([0]))]}),
+                         ("new-switch", {"pool": {"locs": [], "cuwps": [], "switches": [["pressure switch", None]]},
+                                         "ops": [c11._trigs(c11._switch_acts([0]))]})):
+            cases.append((f"{label}:{nm}", base, spec, label))
+    unedited = {label: RC.impl_load_save(b) for label, b in bs + press}
     for i in range(n):
         label, base = bs[i % len(bs)]
         cases.append((f"{label}#{i}", base, A.gen_scenario(rng, base), label))
